@@ -328,10 +328,16 @@ class Runner:
             return
         if not self.judge(complog, 'forced:'):
             return
-        points = [(m, d, o) for (m, d, o) in base.log if m == 'choice']
-        if any(m not in ('choice',) for (m, d, o) in base.log):
-            ctx.count('force_skipped_other_draws')
-            return
+        # every single-index draw is a choice point, whichever sampling call the library uses
+        points = []
+        for (m, d, o) in base.log:
+            if m == 'choice':
+                points.append((m, d, o))
+            elif m == 'integers':
+                points.append((m, d[1] - d[0], o - d[0]))
+            else:
+                ctx.count('force_skipped_other_draws')
+                return
         if not points:
             return
         domains = [d for (_, d, _) in points]
